@@ -617,6 +617,13 @@ fn operands(rich: bool) -> Vec<Ast> {
             Ast::MapLit(vec![("k".into(), Ast::Int(2))]),
             Ast::Member(Box::new(Ast::Var("m".into())), "k".into()),
             Ast::Index(Box::new(Ast::Var("arr".into())), Box::new(Ast::Int(1))),
+            // containers of different sizes that share keys / elements (merge order and override rules)
+            Ast::Var("m".into()),
+            Ast::MapLit(vec![("k".into(), Ast::Int(3)), ("j".into(), Ast::Int(1))]),
+            Ast::MapLit(vec![("j".into(), Ast::Int(9)), ("k".into(), Ast::Int(8)), ("b".into(), Ast::Int(7))]),
+            Ast::ArrLit(vec![Ast::Int(2), Ast::Int(3)]),
+            Ast::ArrLit(vec![]),
+            Ast::MapLit(vec![]),
         ]);
     }
     v
@@ -781,6 +788,32 @@ fn check_case(prop: &str, c: &Case) -> (Vec<(String, String, String)>, u64, Vec<
     } else {
         // C10
         let ast = c.ast.as_ref().unwrap();
+        // The TEXT of a map with several entries follows the iteration order of that HashMap instance. Where such a
+        // map can end up inside a string (map + string), two evaluations legitimately differ by a permutation of the
+        // entries: string outcomes of such expressions are compared as multisets of characters.
+        fn multi_map(a: &Ast) -> bool {
+            match a {
+                Ast::MapLit(m) => m.len() > 1 || m.iter().any(|(_, x)| multi_map(x)),
+                Ast::Var(v) => v == "m" || v == "mm",
+                Ast::ArrLit(v) => v.iter().any(multi_map),
+                Ast::Bin(_, l, r) => multi_map(l) || multi_map(r),
+                Ast::Not(x) | Ast::Assign(_, x) | Ast::Init(_, x) => multi_map(x),
+                Ast::Member(x, _) => multi_map(x),
+                Ast::Index(x, y) => multi_map(x) || multi_map(y),
+                _ => false,
+            }
+        }
+        let mm = multi_map(ast);
+        let canon = |o: &Outcome| -> Outcome {
+            match o {
+                Outcome::Ok(s) if mm && s.starts_with("S:") => {
+                    let mut ch: Vec<char> = s.chars().collect();
+                    ch.sort();
+                    Outcome::Ok(ch.into_iter().collect())
+                }
+                x => x.clone(),
+            }
+        };
         let mut st = ref_store();
         let j = eval(ast, &mut st, &["ro"]);
         let mut raws: Vec<(String, Outcome)> = vec![];
@@ -790,7 +823,7 @@ fn check_case(prop: &str, c: &Case) -> (Vec<(String, String, String)>, u64, Vec<
             let (dmf, _) = evaluate(&src, 0, 1, false);
             let (dmc, _) = evaluate(&src, (c.index as usize) * 4 + 1 + style as usize, 2, false);
             evals += 4;
-            if dmf[0] != dmc[0] || dmf[0] != dmc[1] {
+            if canon(&dmf[0]) != canon(&dmc[0]) || canon(&dmf[0]) != canon(&dmc[1]) {
                 viol.push((
                     "cache-differs".to_string(),
                     "cache-differs".to_string(),
@@ -801,7 +834,7 @@ fn check_case(prop: &str, c: &Case) -> (Vec<(String, String, String)>, u64, Vec<
         }
         let first = raws[0].1.clone();
         classes.push(first.class());
-        if let Some((w, o)) = raws.iter().find(|(_, o)| *o != first) {
+        if let Some((w, o)) = raws.iter().find(|(_, o)| canon(o) != canon(&first)) {
             viol.push((
                 "rendering-differs".to_string(),
                 "rendering-differs".to_string(),
@@ -810,7 +843,7 @@ fn check_case(prop: &str, c: &Case) -> (Vec<(String, String, String)>, u64, Vec<
         } else {
             match (&j, &first) {
                 (Judg::Unjudged, _) => classes.push("unjudged".into()),
-                (Judg::Val(v), Outcome::Ok(s)) if v.show() == *s => {}
+                (Judg::Val(v), Outcome::Ok(s)) if v.show() == *s || canon(&Outcome::Ok(v.show())) == canon(&first) => {}
                 (Judg::Error, Outcome::Err) => {}
                 (Judg::Val(v), o) => {
                     let sig = classify_c10(ast);
